@@ -1,8 +1,15 @@
 from excel2pycl.src.cell import Cell
+from excel2pycl.src.exceptions import E2PyclParserException
 from excel2pycl.src.tokens import EntryPointToken
 
 
 class AstBuilder:
     @classmethod
     def parse(cls, expression: list, in_cell: Cell):
-        return EntryPointToken.get(expression, in_cell)[0]
+        token, rest = EntryPointToken.get(expression, in_cell)
+        # the formula must be consumed as a whole: a parsed prefix followed by tokens that fit nowhere
+        # (=1+2), =1 2, =SUM(1,2))) is a malformed formula, not the formula =1+2
+        if token is None or rest:
+            raise E2PyclParserException(f'The formula in the cell {in_cell} has an incorrect structure')
+
+        return token
